@@ -1,5 +1,5 @@
 (* C15 - lemmas, witnesses, non-vacuity examples. *)
-From Coq Require Import List NArith ZArith Bool Lia.
+From Coq Require Import List NArith ZArith Bool Lia ZifyBool.
 From Verif Require Import Common.Str Common.Json C15.Model_C15.
 Import ListNotations.
 
@@ -793,3 +793,300 @@ Proof.
   - exists (w_kwargs_ok 65), (w_kwargs_ok 66).
     destruct curl_ni_nonvacuous as [H1 [H2 [H3 [H4 H5]]]]. repeat split; assumption.
 Qed.
+
+(* ================================================================== strengthening after seed C15_e *)
+
+
+(* ------------------------------------------------------------------ order of sanitization and prepare (seed C15_e) *)
+
+Lemma split_aux_app_full sep b : forall a cur,
+  split_on_aux sep (a ++ sep :: b) cur = split_on_aux sep a cur ++ split_on_aux sep b [].
+Proof.
+  induction a as [|x a IH]; intros cur; cbn [app split_on_aux].
+  - rewrite N.eqb_refl. reflexivity.
+  - destruct (N.eqb x sep).
+    + rewrite IH. reflexivity.
+    + apply IH.
+Qed.
+
+Lemma split_on_app sep a b : split_on sep (a ++ sep :: b) = split_on sep a ++ split_on sep b.
+Proof. unfold split_on. apply split_aux_app_full. Qed.
+
+Lemma split_aux_nonempty sep s : forall cur, split_on_aux sep s cur <> [].
+Proof.
+  induction s as [|x s IH]; intros cur; cbn [split_on_aux]; [discriminate|].
+  destruct (N.eqb x sep); [discriminate | apply IH].
+Qed.
+
+Lemma split_on_no_sep sep s : mem sep s = false -> split_on sep s = [s].
+Proof. intros H. unfold split_on. rewrite (split_aux_no_sep sep s [] H). reflexivity. Qed.
+
+(* get_auth_from_url reads what is before the LAST @, whatever it contains *)
+Lemma url_auth_alt n :
+  url_auth n = match split_on AT n with
+               | p0 :: p1 :: rest => userinfo_auth (join [AT] (removelast (p0 :: p1 :: rest)))
+               | _ => None
+               end.
+Proof. unfold url_auth, userinfo_auth. destruct (split_on AT n) as [|p0 [|p1 rest]]; reflexivity. Qed.
+
+Lemma match_snoc {B} (F : list str -> option B) (l : list str) (host : str) : l <> [] ->
+  match l ++ [host] with
+  | p0 :: p1 :: rest => F (removelast (p0 :: p1 :: rest))
+  | _ => None
+  end = F l.
+Proof.
+  intros Hl. destruct l as [|a l]; [exfalso; apply Hl; reflexivity|].
+  assert (R : removelast ((a :: l) ++ [host]) = a :: l) by apply removelast_last.
+  destruct l as [|b r]; cbn [app] in *; rewrite R; reflexivity.
+Qed.
+
+Lemma url_auth_userinfo ui host : no_at host = true -> url_auth (ui ++ AT :: host) = userinfo_auth ui.
+Proof.
+  unfold no_at. intros H. apply negb_true_iff in H.
+  rewrite url_auth_alt, split_on_app, (split_on_no_sep AT host H).
+  transitivity (userinfo_auth (join [AT] (split_on AT ui))).
+  - exact (match_snoc (fun l => userinfo_auth (join [AT] l)) (split_on AT ui) host (split_aux_nonempty AT ui [])).
+  - rewrite join_split_on. reflexivity.
+Qed.
+
+Lemma userinfo_auth_no_colon r : mem COLON r = false -> userinfo_auth r = None.
+Proof. intros H. unfold userinfo_auth. rewrite (split_on_no_sep COLON r H). reflexivity. Qed.
+
+Lemma userinfo_auth_user_pass u p : mem COLON u = false -> (u, p) <> ([], []) -> userinfo_auth (u ++ COLON :: p) = Some (u, p).
+Proof.
+  intros H Hne. unfold userinfo_auth. rewrite split_on_app, (split_on_no_sep COLON u H).
+  assert (J := join_split_on COLON p).
+  destruct (split_on COLON p) as [|p0 ps] eqn:E.
+  - exfalso. exact (split_aux_nonempty COLON p [] E).
+  - cbn [app]. rewrite J. destruct u; [|reflexivity]. destruct p; [|reflexivity]. exfalso. apply Hne. reflexivity.
+Qed.
+
+Lemma netloc_of_with_netloc n k : u_netloc (k_url (with_netloc n k)) = n.
+Proof. reflexivity. Qed.
+
+(* the current order: the URL is sanitised BEFORE prepare(), so the only thing prepare_auth can read is the marker *)
+Lemma curl_userinfo_not_derived c ui host k :
+  no_at host = true -> u_netloc (k_url k) = ui ++ AT :: host -> k_auth k = None ->
+  view_headers (curl_view true c k) =
+    requests_prepare_core (sanitize_sdict c (k_headers k)) (sanitize_sdict c (k_cookies k)) (userinfo_auth (repl c)).
+Proof.
+  intros H En Ea. unfold view_headers, curl_view. cbn [fst snd]. unfold requests_prepare. rewrite Ea.
+  cbn [sanitize_url u_netloc]. rewrite En, (userinfo_replaced (repl c) ui host H), (url_auth_userinfo (repl c) host H).
+  reflexivity.
+Qed.
+
+Lemma curl_marker_derives_nothing c ui host k :
+  no_at host = true -> u_netloc (k_url k) = ui ++ AT :: host -> k_auth k = None -> marker_derives_nothing c = true ->
+  view_headers (curl_view true c k) =
+    requests_prepare_core (sanitize_sdict c (k_headers k)) (sanitize_sdict c (k_cookies k)) None.
+Proof.
+  intros H En Ea Hm. rewrite (curl_userinfo_not_derived c ui host k H En Ea).
+  unfold marker_derives_nothing in Hm. apply negb_true_iff in Hm. rewrite (userinfo_auth_no_colon _ Hm). reflexivity.
+Qed.
+
+(* noninterference in the userinfo, no region: any two userinfos (with @ or : inside, empty, ...) on the same case *)
+Lemma curl_ni_userinfo c ui ui' host k : no_at host = true ->
+  curl_view true c (with_netloc (ui ++ AT :: host) k) = curl_view true c (with_netloc (ui' ++ AT :: host) k).
+Proof.
+  intros H. unfold curl_view, with_netloc, sanitize_url. cbn [k_url k_headers k_cookies k_params k_auth k_open u_scheme u_netloc u_path u_query u_fragment].
+  rewrite !(userinfo_replaced (repl c) _ host H). reflexivity.
+Qed.
+
+Lemma curl_ni_userinfo_rendered c ui ui' host k : no_at host = true ->
+  rendered_headers (view_headers (curl_view true c (with_netloc (ui ++ AT :: host) k))) =
+  rendered_headers (view_headers (curl_view true c (with_netloc (ui' ++ AT :: host) k))).
+Proof. intros H. rewrite (curl_ni_userinfo c ui ui' host k H). reflexivity. Qed.
+
+(* structural: every credential-bearing header name of the view carries exactly the marker *)
+Lemma headers_redacted_plain c h :
+  headers_redacted c (map (fun kv : str * str => (fst kv, HPlain (snd kv))) (sanitize_sdict c h)) = true.
+Proof.
+  unfold headers_redacted, sanitize_sdict. induction h as [|[k v] h IH]; [reflexivity|].
+  cbn [map forallb fst snd]. rewrite IH, andb_true_r.
+  destruct (is_sensitive c k) eqn:E; [apply str_eqb_refl | reflexivity].
+Qed.
+
+Lemma headers_redacted_app c a b : headers_redacted c (a ++ b) = headers_redacted c a && headers_redacted c b.
+Proof. unfold headers_redacted. apply forallb_app. Qed.
+
+Lemma mem_rev ch l : mem ch (rev l) = mem ch l.
+Proof.
+  destruct (mem ch l) eqn:E.
+  - apply mem_spec. apply -> in_rev. apply mem_spec. exact E.
+  - destruct (mem ch (rev l)) eqn:E'; [|reflexivity].
+    apply mem_spec in E'. apply in_rev in E'. apply mem_spec in E'. congruence.
+Qed.
+
+Lemma split_aux_parts_no_sep sep s : forall cur x,
+  mem sep cur = false -> In x (split_on_aux sep s cur) -> mem sep x = false.
+Proof.
+  induction s as [|ch s IH]; intros cur x Hc Hin; cbn [split_on_aux] in Hin.
+  - destruct Hin as [<-|[]]. rewrite mem_rev. exact Hc.
+  - destruct (N.eqb ch sep) eqn:Ec.
+    + destruct Hin as [<-|Hin]; [rewrite mem_rev; exact Hc|].
+      apply (IH [] x); [reflexivity | exact Hin].
+    + apply (IH (ch :: cur) x); [|exact Hin]. unfold mem. cbn [existsb]. rewrite N.eqb_sym, Ec. exact Hc.
+Qed.
+
+Lemma in_last {A} (l : list A) d : l <> [] -> In (last l d) l.
+Proof.
+  intros Hl. rewrite (app_removelast_last d Hl) at 2. apply in_or_app. right. left. reflexivity.
+Qed.
+
+(* after sanitize_netloc the only userinfo left is the marker *)
+Lemma url_auth_sanitized r n : url_auth (sanitize_netloc r n) = if fst (netloc_public n) then userinfo_auth r else None.
+Proof.
+  unfold sanitize_netloc, netloc_public.
+  destruct (split_on AT n) as [|p0 [|p1 rest]] eqn:Es; cbn [fst].
+  - rewrite url_auth_alt, Es. reflexivity.
+  - rewrite url_auth_alt, Es. reflexivity.
+  - assert (Hh : no_at (last (p1 :: rest) p0) = true).
+    { unfold no_at. apply negb_true_iff. apply (split_aux_parts_no_sep AT n [] _ eq_refl).
+      fold (split_on AT n). rewrite Es. right. apply in_last. discriminate. }
+    change (r ++ [AT] ++ last (p1 :: rest) p0) with (r ++ AT :: last (p1 :: rest) p0).
+    apply url_auth_userinfo. exact Hh.
+Qed.
+
+Lemma curl_headers_redacted c k :
+  no_request_auth k = true -> no_cookie_jar_header c k = true -> marker_derives_nothing c = true ->
+  headers_redacted c (view_headers (curl_view true c k)) = true.
+Proof.
+  unfold no_request_auth, no_cookie_jar_header, marker_derives_nothing. intros Ha Hc Hm.
+  destruct (k_auth k) eqn:Ea; [discriminate|]. apply negb_true_iff in Hm.
+  unfold view_headers, curl_view. cbn [fst snd]. unfold requests_prepare. rewrite Ea.
+  cbn [sanitize_url u_netloc]. rewrite url_auth_sanitized, (userinfo_auth_no_colon _ Hm).
+  assert (En : (if fst (netloc_public (u_netloc (k_url k))) then @None (str * str) else None) = None) by (destruct (fst _); reflexivity).
+  rewrite En. unfold requests_prepare_core.
+  destruct (k_cookies k) as [|x ck] eqn:Ck; cbn [sanitize_sdict map]; [apply headers_redacted_plain|].
+  rewrite has_header_sanitize.
+  destruct (has_header s_Cookie (k_headers k)) eqn:Eh; [apply headers_redacted_plain|].
+  rewrite orb_false_r in Hc. apply negb_true_iff in Hc.
+  rewrite headers_redacted_app, headers_redacted_plain. unfold headers_redacted. cbn [forallb fst snd]. rewrite Hc. reflexivity.
+Qed.
+
+(* ------------------------------------------------------------------ the seeded order (sentinel) *)
+
+Lemma set_header_in {A} name (v : A) h : In (name, v) (set_header name v h).
+Proof.
+  induction h as [|[k w] h IH]; cbn [set_header]; [left; reflexivity|].
+  destruct (str_eqb (lower_ascii k) (lower_ascii name)); [left; reflexivity | right; exact IH].
+Qed.
+
+(* prepare() first: for EVERY user:password the view carries the Basic value derived from it, whatever the headers said,
+   while the URL of the view shows the marker *)
+Lemma prepare_first_derives_authorization enc c u p host k :
+  no_at host = true -> mem COLON u = false -> (u, p) <> ([], []) ->
+  u_netloc (k_url k) = (u ++ COLON :: p) ++ AT :: host -> k_auth k = None ->
+  In (s_Authorization, HBasic u p) (view_headers (curl_view_prepare_first enc true c k)) /\
+  u_netloc (view_url (curl_view_prepare_first enc true c k)) = repl c ++ AT :: host.
+Proof.
+  intros H Hu Hne En Ea. unfold view_headers, view_url, curl_view_prepare_first. cbn [fst snd sanitize_url u_netloc].
+  unfold requests_prepare. rewrite Ea, En, (url_auth_userinfo _ host H), (userinfo_auth_user_pass u p Hu Hne).
+  split; [apply set_header_in | apply userinfo_replaced; exact H].
+Qed.
+
+Definition w_kwargs_userinfo (p : N) : case_kwargs :=
+  {| k_url := {| u_scheme := [104;116;116;112]%N; u_netloc := [117;58;p;64;104]%N; u_path := [47]%N; u_query := []; u_fragment := [] |};
+     k_headers := [(s_Authorization, [66;101;97;114;101;114;32;120]%N)]; k_cookies := []; k_params := [];
+     k_auth := None; k_open := [] |}.
+
+Lemma prepare_first_leaks :
+  kwargs_public default_config (w_kwargs_userinfo 65) = kwargs_public default_config (w_kwargs_userinfo 66) /\
+  no_request_auth (w_kwargs_userinfo 65) = true /\ no_request_auth (w_kwargs_userinfo 66) = true /\
+  cookies_covered default_config (w_kwargs_userinfo 65) = true /\ cookies_covered default_config (w_kwargs_userinfo 66) = true /\
+  curl_view true default_config (w_kwargs_userinfo 65) = curl_view true default_config (w_kwargs_userinfo 66) /\
+  rendered_headers (view_headers (curl_view true default_config (w_kwargs_userinfo 65))) = [(s_Authorization, default_repl)] /\
+  view_url (curl_view_prepare_first no_params_enc true default_config (w_kwargs_userinfo 65)) =
+    view_url (curl_view_prepare_first no_params_enc true default_config (w_kwargs_userinfo 66)) /\
+  u_netloc (view_url (curl_view_prepare_first no_params_enc true default_config (w_kwargs_userinfo 65))) = default_repl ++ [64;104]%N /\
+  rendered_headers (view_headers (curl_view_prepare_first no_params_enc true default_config (w_kwargs_userinfo 65))) =
+    [(s_Authorization, [66;97;115;105;99;32;100;84;112;66]%N)] (* Basic dTpB *) /\
+  rendered_headers (view_headers (curl_view_prepare_first no_params_enc true default_config (w_kwargs_userinfo 66))) =
+    [(s_Authorization, [66;97;115;105;99;32;100;84;112;67]%N)] (* Basic dTpC *).
+Proof. repeat split; vm_compute; reflexivity. Qed.
+
+Example curl_headers_redacted_nonvacuous :
+  no_request_auth (w_kwargs_userinfo 65) = true /\ no_cookie_jar_header default_config (w_kwargs_userinfo 65) = true /\
+  marker_derives_nothing default_config = true /\
+  headers_redacted default_config (view_headers (curl_view false default_config (w_kwargs_userinfo 65))) = false /\
+  headers_redacted default_config (view_headers (curl_view_prepare_first no_params_enc true default_config (w_kwargs_userinfo 65))) = false.
+Proof. repeat split; vm_compute; reflexivity. Qed.
+
+(* a marker with a colon does derive an Authorization header - from the marker alone *)
+Example marker_with_colon_derives :
+  let c := from_config default_config (Some [120;58;121]%N) None None in
+  marker_derives_nothing c = false /\
+  rendered_headers (view_headers (curl_view true c (w_kwargs_userinfo 65))) = [(s_Authorization, [66;97;115;105;99;32;101;68;112;53]%N)] /\
+  curl_view true c (w_kwargs_userinfo 65) = curl_view true c (w_kwargs_userinfo 66).
+Proof. repeat split; vm_compute; reflexivity. Qed.
+
+
+(* ------------------------------------------------------------------ base64: the derived form determines the secret *)
+Ltac Zify.zify_post_hook ::= Z.to_euclidean_division_equations.
+
+Lemma b64_char_props i : (i < 64)%N -> b64_index (b64_char i) = Some i /\ N.eqb (b64_char i) PAD = false.
+Proof.
+  intros Hi.
+  assert (F : forallb (fun j => match b64_index (b64_char j) with Some k => N.eqb k j | None => false end && negb (N.eqb (b64_char j) PAD))
+                      (map N.of_nat (seq 0 64)) = true) by (vm_compute; reflexivity).
+  rewrite forallb_forall in F. specialize (F i).
+  assert (Hin : In i (map N.of_nat (seq 0 64))).
+  { rewrite <- (N2Nat.id i). apply in_map. apply in_seq. lia. }
+  specialize (F Hin). apply andb_true_iff in F. destruct F as [F1 F2].
+  destruct (b64_index (b64_char i)) as [k|]; [|discriminate]. apply N.eqb_eq in F1. subst k.
+  apply negb_true_iff in F2. split; [reflexivity | exact F2].
+Qed.
+
+Lemma list_ind3 {A} (P : list A -> Prop) :
+  P [] -> (forall a, P [a]) -> (forall a b, P [a; b]) -> (forall a b c r, P r -> P (a :: b :: c :: r)) -> forall l, P l.
+Proof.
+  intros H0 H1 H2 H3. fix IH 1. intros [|a [|b [|c r]]]; [exact H0 | apply H1 | apply H2 | apply H3; apply IH].
+Qed.
+
+Lemma b64_roundtrip : forall l, is_bytes l = true -> b64_decode (b64 l) = Some l.
+Proof.
+  unfold is_bytes. induction l as [|a|a b|a b c r IH] using list_ind3; intros Hb.
+  - reflexivity.
+  - cbn [forallb] in Hb. rewrite andb_true_r in Hb. apply N.ltb_lt in Hb.
+    cbn [b64 b64_decode].
+    destruct (b64_char_props (a / 4)) as [E0 _]; [lia|].
+    destruct (b64_char_props ((a mod 4) * 16)) as [E1 _]; [lia|].
+    rewrite E0, E1, N.eqb_refl.
+    assert (Em : (((a mod 4) * 16) mod 16 =? 0)%N = true) by (apply N.eqb_eq; lia). rewrite Em.
+    f_equal. f_equal. lia.
+  - cbn [forallb] in Hb. rewrite andb_true_r in Hb. apply andb_true_iff in Hb. destruct Hb as [Ha Hb].
+    apply N.ltb_lt in Ha, Hb. cbn [b64 b64_decode].
+    destruct (b64_char_props (a / 4)) as [E0 _]; [lia|].
+    destruct (b64_char_props ((a mod 4) * 16 + b / 16)) as [E1 _]; [lia|].
+    destruct (b64_char_props ((b mod 16) * 4)) as [E2 N2]; [lia|].
+    rewrite E0, E1, N.eqb_refl, N2, E2.
+    assert (Em : ((((b mod 16) * 4) mod 4) =? 0)%N = true) by (apply N.eqb_eq; lia). rewrite Em.
+    f_equal. f_equal; [lia|]. f_equal. lia.
+  - cbn [forallb] in Hb. apply andb_true_iff in Hb. destruct Hb as [Ha Hb]. apply andb_true_iff in Hb. destruct Hb as [Hb Hc].
+    apply andb_true_iff in Hc. destruct Hc as [Hc Hr]. apply N.ltb_lt in Ha, Hb, Hc.
+    cbn [b64 b64_decode].
+    destruct (b64_char_props (a / 4)) as [E0 _]; [lia|].
+    destruct (b64_char_props ((a mod 4) * 16 + b / 16)) as [E1 _]; [lia|].
+    destruct (b64_char_props ((b mod 16) * 4 + c / 64)) as [E2 _]; [lia|].
+    destruct (b64_char_props (c mod 64)) as [E3 N3]; [lia|].
+    rewrite E0, E1, N3, E2, E3, (IH Hr).
+    f_equal. f_equal; [lia|]. f_equal; [lia|]. f_equal. lia.
+Qed.
+
+Lemma b64_injective l l' : is_bytes l = true -> is_bytes l' = true -> b64 l = b64 l' -> l = l'.
+Proof.
+  intros H H' E. assert (D := b64_roundtrip l H). rewrite E, (b64_roundtrip l' H') in D. inversion D. reflexivity.
+Qed.
+
+(* the value of the derived Authorization header gives back the user:password text it was built from *)
+Lemma basic_value_determines_credentials u p u' p' :
+  is_bytes (u ++ [COLON] ++ p) = true -> is_bytes (u' ++ [COLON] ++ p') = true ->
+  basic_value u p = basic_value u' p' -> u ++ [COLON] ++ p = u' ++ [COLON] ++ p'.
+Proof.
+  unfold basic_value. intros H H' E. apply app_inv_head in E. apply (b64_injective _ _ H H' E).
+Qed.
+
+Example b64_examples :
+  b64 [117;58;112]%N = [100;84;112;119]%N /\ b64 [117;58]%N = [100;84;111;61]%N /\ b64 [97]%N = [89;81;61;61]%N /\
+  b64_decode [100;84;112;119]%N = Some [117;58;112]%N /\ b64_decode [100;84;112]%N = None.
+Proof. repeat split; vm_compute; reflexivity. Qed.
